@@ -199,6 +199,8 @@ class Interp:
             ints = all(x is None or (isinstance(x, int) and not isinstance(x, bool)) for x in (lo, hi, step))
             if ints and step != 0 and (isinstance(v, (frozenset, dict)) or (isinstance(v, tuple) and len(v) == 2 and v[0] == "seq")):
                 return frozenset(self.freeze(x) for x in self.iterate(v)[lo:hi:step])  # selected in the model's one order
+            if ints and step != 0 and isinstance(v, tuple) and all(isinstance(x, str) for x in v):
+                return v[lo:hi:step]  # a model list (the rules R): in list order
             raise Cannot("an order-dependent selection (slice) of a sequence that is not a model collection")
         if tag == "arith":
             a, b = self.val(t[2], env), self.val(t[3], env)
@@ -314,6 +316,8 @@ class Interp:
                 return bool(v)
             if rooted_at_caught_value(v):
                 return True  # the message of a violated rule is a non-empty string
+            if isinstance(v, tuple) and len(v) == 3 and v[0] == "joined":
+                return any(v[2]) or (len(v[2]) > 1 and bool(v[1]))  # the joined string is not empty
             if isinstance(v, tuple) and v and v[0] in ("tok", "attr", "index", "result", "valof", "caught", "elt", "attrval"):
                 return self.oracle("truthy", v)
             return bool(v)
